@@ -52,6 +52,14 @@ def check(ctx):
     call = rets[0]
     call.lineno = f.lineno
     pat = call.args[0]
+
+    class _FoldNames(ast.NodeTransformer):
+        def visit_Name(self, n):
+            v_ = py.try_fold(n, m)
+            if isinstance(v_, str) and n.id != param:
+                return ast.Constant(value=v_)
+            return n
+    pat = _FoldNames().visit(pat)
     flags = 0
     if len(call.args) > 1:
         flags = py.fold(call.args[1], m)
@@ -120,6 +128,11 @@ def check(ctx):
     ps = pat_store[0]
     pname, pkey = re.match(r'^(\w+)\[(\w+)\]$', ps.target).groups()
     r2.check(ps.value == '_ldd_library_pattern(%s)' % pkey, 'pattern keyed by its library', rel, ps.line, 'pattern %s stored under key %s' % (ps.value, pkey))
+    ISFILE = 'os.path.isfile(%s)' % pkey
+    want_ps = gsa.conj(*[gsa.atom(a_) for a_ in gsa.atoms(ps.cond) if a_.startswith('@iter:')] + [gsa.neg(gsa.atom(ISFILE))])
+    r2.check(gsa.equiv(ps.cond, want_ps), 'every requested name that is not an existing file is looked for', rel, ps.line,
+             'a pattern is registered only when %s: a requested name that is not a regular file (e.g. happens to be the name of a directory) is dropped silently '
+             'instead of being resolved or reported' % gsa.show(ps.cond)[:200], detail=gsa.show(ps.cond)[:200])
     if not mcalls:
         raise AnalysisError('no match call')
     outp = [a_.arg for a_ in g.args.args][-1]
